@@ -590,6 +590,8 @@ class Models(object):
             code = fmt[j]
             if code == 's':
                 items.append(('s', 1 if cnt is None else cnt))
+            elif code == 'p':
+                items.append(('p', 1 if cnt is None else cnt))
             elif code in 'BH':
                 for _ in range(1 if cnt is None else cnt):
                     items.append((code, 1))
@@ -669,6 +671,27 @@ class Models(object):
                         nxt.append((pt, z3.Concat(acc, enc)))
                     if pf is not None:
                         nxt.append((pf, ('raise', _struct.error, 'argument out of range')))
+                elif code == 'p':
+                    # pascal string of n bytes: one length byte min(len, n-1, 255), then the data truncated / zero-padded to n-1 bytes
+                    if not isinstance(v, VBytes):
+                        nxt.append((p, ('raise', _struct.error, "argument for 'p' must be a bytes object")))
+                        continue
+                    ln = z3.Length(v.t)
+                    nn = n if not isinstance(n, int) else z3.IntVal(n)
+                    p0, p1 = ex.branch(p, nn <= 0)
+                    if p0 is not None:
+                        nxt.append((p0, acc))
+                    if p1 is not None:
+                        cap = nn - 1
+                        lb = z3.If(ln < cap, ln, cap)
+                        lb = z3.If(lb > 255, z3.IntVal(255), lb)
+                        pt, pf = ex.branch(p1, ln >= cap)
+                        if pt is not None:
+                            nxt.append((pt, z3.Concat(acc, z3.StrFromCode(lb), z3.SubString(v.t, 0, cap))))
+                        if pf is not None:
+                            pad = ex.fresh_str(pf, 'pad')
+                            pf.assume_def([pad], [z3.Length(pad) == cap - ln, z3.InRe(pad, z3.Star(z3.Re(mk_str('\x00'))))])
+                            nxt.append((pf, z3.Concat(acc, z3.StrFromCode(lb), v.t, pad)))
                 else:  # 's' with count n (n may be z3 Int for symbolic count)
                     if not isinstance(v, VBytes):
                         nxt.append((p, ('raise', _struct.error, "argument for 's' must be a bytes object")))
@@ -699,8 +722,9 @@ class Models(object):
         if text.count('{}') != 1 or len(cnts) != 1:
             raise Unsupported('struct template')
         pre, post = text.split('{}')
-        if not post.startswith('s'):
+        if not post.startswith(('s', 'p')):
             raise Unsupported('struct template')
+        code = post[0]
         big, items_pre = self._parse_fmt(pre if pre[0] in '@=<>!' else '@' + pre)
         _, items_post = self._parse_fmt(('!' if big else '<') + post[1:])
         cnt = cnts[0]
@@ -709,7 +733,7 @@ class Models(object):
         pt, pf = ex.branch(path, cnt.t >= 0)
         if pt is not None:
             # note: '0s' consumes one (empty) argument
-            items = items_pre + [('s', cnt.t)] + items_post
+            items = items_pre + [(code, cnt.t)] + items_post
             out.extend(self._pack_items(ex, pt, big, items, vals))
         if pf is not None:
             out.extend(ex.raise_(pf, _struct.error, 'bad char in struct format'))
